@@ -90,3 +90,15 @@ void gcry_md_hash_buffer(int algo, void *digest, const void *buffer, size_t leng
 }
 
 } // extern "C"
+
+// select(2) with the time-out forced to zero: the channel classes poll with 1-50 ms waits, the
+// harness always knows what is in the pipes, so waiting only costs wall-clock time.
+#include <sys/select.h>
+extern "C" int select(int nfds, fd_set *r, fd_set *w, fd_set *e, struct timeval *tv)
+{
+	typedef int (*fn_t)(int, fd_set*, fd_set*, fd_set*, struct timeval*);
+	static fn_t real = (fn_t)dlsym(RTLD_NEXT, "select");
+	struct timeval z; z.tv_sec = 0; z.tv_usec = 0;
+	(void)tv;
+	return real(nfds, r, w, e, &z);
+}
